@@ -2,9 +2,10 @@ package fakesvc
 
 import (
 	"encoding/json"
-	"errors"
 	"fmt"
+	"io"
 	"sort"
+	"syscall"
 )
 
 // FaultSpec names one misbehaviour of one service call: kind x service x per-service call number
@@ -139,7 +140,7 @@ func (f FaultSpec) Apply(applied *bool) Fault {
 		switch f.Kind {
 		case "transport":
 			*applied = true
-			return 0, nil, errors.New("connection reset by peer (injected)"), true
+			return 0, nil, LostConn{}, true
 		case "status500":
 			*applied = true
 			return 500, []byte(`{"message":"internal"}`), nil, true
@@ -318,4 +319,17 @@ func SparseFault(salt int, applied *bool) Fault {
 		out, _ := json.Marshal(resp)
 		return 200, out, nil, true
 	}
+}
+
+// LostConn is the injected transport error.  It looks like what net/http returns when the peer goes away after the
+// request was written (a stale keep-alive connection, a service that crashed while answering): errors.Is finds
+// io.EOF, io.ErrUnexpectedEOF, ECONNRESET and EPIPE in it.  The request HAS reached the service - a client that sends
+// it again on such an error delivers it twice.
+type LostConn struct{}
+
+func (LostConn) Error() string   { return "read tcp: unexpected EOF: connection reset by peer" }
+func (LostConn) Timeout() bool   { return false }
+func (LostConn) Temporary() bool { return false }
+func (LostConn) Is(t error) bool {
+	return t == io.EOF || t == io.ErrUnexpectedEOF || t == syscall.ECONNRESET || t == syscall.EPIPE
 }
